@@ -491,7 +491,9 @@ def table(text, name, nsample=40):
            "Import ListNotations.",
            "(* generated from src/WallGo/PotentialTools/Data/InterpolationTable_%s.txt: every "
            "number as\n   (mantissa, decimal exponent) *)" % name,
-           "Definition %sRaw : list raw_row := [\n%s]%%sint63." % (name, ";\n".join(raw)),
+           "Local Open Scope sint63_scope.",
+           "Definition %sRaw : list raw_row := [\n%s]." % (name, ";\n".join(raw)),
+           "Local Close Scope sint63_scope.",
            "Definition %sRows : list row :=\n  Eval vm_compute in match rows_of_raw %sRaw with "
            "Some l => l | None => [] end." % (name, name),
            "Lemma %sRows_exact : rows_of_raw %sRaw = Some %sRows.\nProof. vm_compute. "
